@@ -18,6 +18,22 @@ def parseVec : List String → Option (List Fixed64 × List String)
         some (vals.filterMap (fun v => v.map ofInt), rest.drop n)
       else none
 
+/-- "<m> id1 seq1 val1 … idm seqm valm": the inputs and the value of the previous output of each -/
+def parseIns : List String → Option (List In × List Fixed64)
+  | [] => none
+  | m :: rest =>
+    match nat? m with
+    | none => none
+    | some m =>
+      let rec go : Nat → List String → Option (List In × List Fixed64)
+        | 0, _ => some ([], [])
+        | k + 1, id :: seq :: v :: tl =>
+          match nat? id, nat? seq, int? v, go k tl with
+          | some id, some seq, some v, some (is, vs) => some (⟨id, seq⟩ :: is, ofInt v :: vs)
+          | _, _, _, _ => none
+        | _, _ => none
+      go m rest
+
 def fmtSan : San → String
   | .ok => "ok" | .inn => "in" | .out => "out"
 
@@ -34,8 +50,8 @@ def stepC01 : List String → String
   | "fee" :: rest =>
     match parseVec rest with
     | some (outs, rest) =>
-      match parseVec rest with
-      | some (refs, _) =>
+      match parseIns rest with
+      | some (_, refs) =>
         let f := toString (toInt (txFee outs refs))
         f ++ " " ++ f
       | none => "bad-op"
@@ -43,11 +59,11 @@ def stepC01 : List String → String
   | "flow" :: kind :: flags :: minFee :: sp :: rest =>
     match nat? kind, int? minFee, parseSpecial sp, parseVec rest with
     | some kind, some minFee, some sp, some (outs, rest) =>
-      match parseVec rest, classOf kind with
-      | some (refs, _), some c =>
+      match parseIns rest, classOf kind with
+      | some (ins, refs), some c =>
         let env : Env := { minFee := ofInt minFee, afterNFT := flags.contains 'a',
                            multiExchange := flags.contains 'm', rectifyFee := ofInt 10000 }
-        let san := sanity curRev c env refs.length outs
+        let san := sanity curRev c env ins outs
         if c == .coinbase then fmtSan san ++ " -"
         else if san != .ok then fmtSan san ++ " -"
         else fmtSan san ++ " " ++ fmtCtx (context c env sp outs refs)
@@ -55,12 +71,17 @@ def stepC01 : List String → String
     | _, _, _, _ => "bad-op"
   | "e2e" :: _mode :: rest =>
     match parseVec rest with
-    | some (outs, [r]) =>
+    | some (outs, r :: tail) =>
       match int? r with
       | some r =>
-        let refs := [ofInt r]
+        -- the genesis output referenced once per listed Sequence
+        let seqs : List Nat := match tail with
+          | [] => [0]
+          | _ :: ss => ss.filterMap nat?
+        let ins : List In := seqs.map (fun q => ⟨0, q⟩)
+        let refs := ins.map (fun _ => ofInt r)
         let env : Env := { minFee := ofInt 100, afterNFT := true, multiExchange := false, rectifyFee := ofInt 10000 }
-        let san := sanity curRev .plainOut env 1 outs
+        let san := sanity curRev .plainOut env ins outs
         let ctx := context .plainOut env .ok outs refs
         let pool := if san != .ok then fmtSan san else
           match ctx with
@@ -72,9 +93,10 @@ def stepC01 : List String → String
   | "actcr" :: "1" :: rest =>
     match parseVec rest with
     | some (outs, tail) =>
-      let refs : List Fixed64 := if tail == ["noinput"] then [] else [ofInt 3300000000000000]
+      let ins : List In := if tail == ["noinput"] then [] else [⟨0, 0⟩]
+      let refs : List Fixed64 := ins.map (fun _ => ofInt 3300000000000000)
       let env : Env := { minFee := ofInt 100, afterNFT := true, multiExchange := false, rectifyFee := ofInt 10000 }
-      let san := sanity curRev .activate env refs.length outs
+      let san := sanity curRev .activate env ins outs
       let ctx := context .activate env .alt outs refs
       let c := if ctx.accepted then "ok" else fmtCtx ctx
       let pool := if san != .ok then fmtSan san else c
